@@ -78,6 +78,9 @@ ACCEPTOR = {
     'collision-then-data': [('P', [('RQ',)]), ('U', 'AC', ()), ('U', 'RLRQ', ()), ('P', [('RLRQ',)]), ('P', [('RLRP',)]),
                             ('P', [('MSG', 1, 0, [1])]), ('FIN',)],
     'collision-then-garbage': [('P', [('RQ',)]), ('U', 'AC', ()), ('U', 'RLRQ', ()), ('P', [('RLRQ',), ('RLRP',), ('UNK',)]), ('FIN',)],
+    # the source of an outgoing message fails after one fragment / nothing of a message can be produced: provider abort
+    'failing-generator': [('P', [('RQ',)]), ('U', 'AC', ()), ('P', [('MSG', 1, 0, [1])]), ('GF', 3, 1), ('FIN',)],
+    'empty-generator': [('P', [('RQ',)]), ('U', 'AC', ()), ('P', [('MSG', 1, 0, [1])]), ('GF', 0, 0), ('P', [('MSG', 1, 0, [1])]), ('FIN',)],
     # the peer has asked for release; the local user still sends data before it answers (allowed in Sta8: AR-7)
     'data-before-release-response': [('P', [('RQ',)]), ('U', 'AC', ()), ('P', [('MSG', 1, 0, [1]), ('RLRQ',)]), ('G', 2), ('U', 'RLRP', ()), ('FIN',)],
     'many-pipelined': [('P', [('RQ',)]), ('U', 'AC', ()), ('P', [('MSG', 1, 0, [1])] * 24), ('P', [('UNK',)]), ('FIN',)],
@@ -104,6 +107,7 @@ REQUESTOR = {
     'abort-then-peer-talks': [('U', 'RQ', ()), ('P', [('AC',)]), ('U', 'AB', (0, 0)), ('P', [('MSG', 1, 0, [1]), ('UNK0',), ('AB', [2, 0])]), ('FIN',)],
     'release-mid-message': [('U', 'RQ', ()), ('P', [('AC',)]), ('G', 1), ('P', [('MSGA', 2, 1, [1, 1, 1], 2)]), ('U', 'RLRQ', ()),
                             ('P', [('MSGB',), ('RLRP',)])],
+    'failing-generator': [('U', 'RQ', ()), ('P', [('AC',)]), ('GF', 2, 0), ('P', [('MSG', 1, 0, [1])]), ('FIN',)],
     'data-before-release-response': [('U', 'RQ', ()), ('P', [('AC',)]), ('G', 1), ('P', [('MSG', 1, 0, [1]), ('RLRQ',)]), ('G', 1), ('U', 'RLRP', ()), ('FIN',)],
     'find': [('U', 'RQ', ()), ('P', [('AC',)]), ('G', 2), ('P', [('MSG', 1, 1, [1, 1]), ('MSG', 1, 1, [2]), ('MSG', 1, 0, [1])]),
              ('U', 'RLRQ', ()), ('P', [('RLRP',)])],
@@ -257,23 +261,37 @@ def play(script, req, cuts=(), dribble=False, waiting=False, fin_at=None, stop_s
                     continue
                 if not settle():
                     break
-            elif op[0] == 'UECHO':
-                # the local user accepts the association it was indicated the way the library's acceptor does: the
-                # titles of the indicated request are echoed in the response
+            elif op[0] in ('UECHO', 'UACCEPT'):
+                # the local user accepts the association it was indicated the way the library's acceptor does.  UECHO:
+                # the titles of the indicated request are echoed in the response; UACCEPT: the response IS the one the
+                # library's own AssociationAcceptor.accept() builds from the indicated request (titles, application
+                # context and the whole user information item echoed, maximum length replaced)
                 from .ulrun import user_pdu
                 ind = [i for i in run.indications if type(i).__name__ == 'AAssociateRqPDU']
                 if ind:
-                    ac = user_pdu('AC')
-                    ac.called_ae_title, ac.calling_ae_title = ind[-1].called_ae_title, ind[-1].calling_ae_title
-                    run.user_put('AC', (), obj=ac)
-                    out.echoed = True
-                    if not settle():
-                        break
-            elif op[0] == 'G':
+                    ac = None
+                    if op[0] == 'UECHO':
+                        ac = user_pdu('AC')
+                        ac.called_ae_title, ac.calling_ae_title = ind[-1].called_ae_title, ind[-1].calling_ae_title
+                    else:
+                        from . import neglib
+                        ae, _ = neglib.server_ae(['1.2.840.10008.1.1'], ['1.2.840.10008.1.2'], 16384)
+                        acc = neglib.bare_acceptor(ae, 16384)
+                        try:
+                            acc.accept(ind[-1])
+                            ac = acc.dul.sent[0][0]
+                        except Exception as exc:      # noqa - the acceptor's own thread fails, not the provider: outside C12
+                            out.accept_raised = '%s: %s' % (type(exc).__name__, exc)
+                    if ac is not None:
+                        run.user_put('AC', (), obj=ac)
+                        out.echoed = True
+                        if not settle():
+                            break
+            elif op[0] in ('G', 'GF'):
                 ids.setdefault('f', 0)
                 fids = list(range(ids['f'] + 1, ids['f'] + 1 + op[1]))
                 ids['f'] += op[1]
-                run.user_gen(fids)
+                run.user_gen(fids, fail_at=op[2] if op[0] == 'GF' else None)
                 if not settle():
                     break
             elif op[0] == 'FIN':
